@@ -371,6 +371,7 @@ type sharedTracker struct {
 	frozen  bool
 	objs    map[*value]string // cells allocated before Freeze, with a label
 	maps    map[*amap]bool
+	natives map[nativeObj]bool // engine-native objects (hash digests) reachable before Freeze
 	writes  []string
 	enabled bool
 }
